@@ -1312,8 +1312,52 @@ impl Coverage {
     }
 }
 
+/// Media types that are valid by the grammar of RFC 7231 section 3.1.1.1 (type "/" subtype *( OWS ";"
+/// OWS token "=" ( token / quoted-string ) )) beyond the forms of the main menu: a file can be given
+/// each of them, and it comes back from the decoder as the same type and parameters.
+fn mime_grammar_cells(ctx: &Ctx) -> u64 {
+    let menu: [(&str, &str); 9] = [
+        ("upper-case", "Text/Plain; Format=Flowed"),
+        ("many-parameters", "a/b; p1=1; p2=2; p3=\"3 3\""),
+        ("token-symbols", "application/vnd.x-y_z+json; v=1.0-beta_2"),
+        ("quoted-url", "application/vnd.api+json; ext=\"https://jsonapi.org/ext/atomic\""),
+        ("no-blank-after-semicolon", "text/plain;charset=utf-8"),
+        ("empty-quoted-value", "text/plain; a=\"\""),
+        ("quoted-pair", "application/x-foo; v=\"1\\\"2\""),
+        ("blank-before-semicolon", "text/plain ; charset=utf-8"),
+        ("tab-after-semicolon", "text/plain;\tformat=flowed"),
+    ];
+    let mut n = 0;
+    for (tag, m) in menu {
+        for type_first in [false, true] {
+            n += 1;
+            let form = FormSpec {
+                parts: vec![PartSpec { file: true, name: "f".into(), filename: Some("n.bin".into()), mime: Some(m.to_string()), data: lit("x"), type_first }],
+                preset_content_type: 0,
+            };
+            match run_send(&form, None, FIXED_DECOY, None) {
+                Ok(_) => ctx.outcome(format!("mime-grammar:{tag}:round-trips")),
+                Err((sig, what)) => {
+                    let refused = sig == "C15:build-failed" && what.contains("with_type");
+                    ctx.outcome(format!("mime-grammar:{tag}:{}", if refused { "refused" } else { "differs" }));
+                    let sig = if refused { format!("C15:valid-mime-refused:{tag}") } else { sig.to_string() };
+                    ctx.violation(
+                        sig,
+                        format!("a file given the media type {m:?} (valid by RFC 7231 3.1.1.1): {what}"),
+                        json!({"engine": "c15", "form": form, "write_max_of_first_failure": 0, "note": "mime grammar cell"}),
+                        5_000_000 + n,
+                    );
+                }
+            }
+        }
+    }
+    n
+}
+
 pub fn c15(ctx: &Ctx) -> Report {
     let tier = ctx.tier;
+    let n_mime_grammar = mime_grammar_cells(ctx);
+    ctx.count("mime_grammar_cells", n_mime_grammar);
     let (cases, per_family) = enumerate(tier);
     eprintln!("C15: {} forms x {} write policies", cases.len(), WRITE_POLICIES.len());
     let cov = Coverage::new();
